@@ -4,6 +4,8 @@ import (
 	"bytes"
 	"crypto/sha256"
 	"fmt"
+	"github.com/mmcloughlin/avo/operand"
+	"github.com/mmcloughlin/avo/x86"
 	"go/ast"
 	"go/importer"
 	"go/parser"
@@ -13,6 +15,7 @@ import (
 	"os/exec"
 	"path/filepath"
 	"sort"
+	"strconv"
 	"strings"
 
 	"github.com/mmcloughlin/avo/build"
@@ -127,6 +130,45 @@ func buildOutputs(p *Prog) (string, error) {
 func c17Progs(seed uint64, n int) []*Prog {
 	rng := NewRNG(seed + 4000)
 	progs := append(pipelineCorpus(), largeProgs()...)
+	// instructions with two results that are both used afterwards, with 2..9 other values live across them:
+	// the shapes on which an order-dependent set operation in liveness changes the colouring
+	for t := 2; t <= 9; t++ {
+		for variant := 0; variant < 2; variant++ {
+			p := &Prog{Desc: fmt.Sprintf("two results both used, %d values live across (%s)", t, []string{"MULQ", "XCHGQ"}[variant]), Tags: map[string]bool{"corpus": true}}
+			coll := reg.NewCollection()
+			add := func(i *ir.Instruction, err error) {
+				if err != nil {
+					die(err)
+				}
+				p.Nodes = append(p.Nodes, i)
+			}
+			var tmp []reg.GPVirtual
+			for k := 0; k < t; k++ {
+				v := coll.GP64()
+				tmp = append(tmp, v)
+				add(x86.MOVQ(operand.U32(uint32(k+1)), v))
+			}
+			a, b, acc := coll.GP64(), coll.GP64(), coll.GP64()
+			add(x86.MOVQ(operand.U32(3), a))
+			add(x86.MOVQ(operand.U32(4), b))
+			if variant == 0 {
+				add(x86.MOVQ(a, reg.RAX))
+				add(x86.MULQ(b))
+				add(x86.MOVQ(reg.RAX, acc))
+				add(x86.ADDQ(reg.RDX, acc))
+			} else {
+				add(x86.XCHGQ(a, b))
+				add(x86.MOVQ(a, acc))
+				add(x86.ADDQ(b, acc))
+			}
+			for _, v := range tmp {
+				add(x86.ADDQ(v, acc))
+			}
+			add(x86.MOVQ(acc, operand.Mem{Base: reg.RSP, Disp: 8}))
+			add(x86.RET())
+			progs = append(progs, p)
+		}
+	}
 	for len(progs) < n {
 		nv := []int{4, 10, 14, 16, 22}[rng.Intn(5)]
 		progs = append(progs, genProg(rng, ProgOpts{MaxNodes: 10 + rng.Intn(60), Phys: rng.Chance(60), Synth: false, NVirt: nv, Branches: rng.Chance(60)}))
@@ -194,8 +236,55 @@ func c17child(c *Ctx) {
 	if c.Thorough() {
 		n = 1500
 	}
-	for _, p := range c17Progs(c.Seed, n) {
-		fmt.Printf("%x\n", sha256.Sum256([]byte(safeBuild(p))))
+	// what a process generated before, and in which order, must not matter: each child starts differently
+	// (nothing, a function without register operands, a vector-only one, a mask-only one) and goes through the
+	// programs in its own order; the hashes are printed in the programs' own order
+	progs := c17Progs(c.Seed, n)
+	variant, _ := strconv.Atoi(os.Getenv("VH_C17_VARIANT"))
+	starter := func(build func(add func(*ir.Instruction, error), coll *reg.Collection)) {
+		p := &Prog{Desc: "starter"}
+		coll := reg.NewCollection()
+		build(func(i *ir.Instruction, err error) {
+			if err == nil {
+				p.Nodes = append(p.Nodes, i)
+			}
+		}, coll)
+		safeBuild(p)
+	}
+	order := make([]int, len(progs))
+	for j := range order {
+		order[j] = j
+	}
+	switch variant % 4 {
+	case 1:
+		starter(func(add func(*ir.Instruction, error), coll *reg.Collection) { add(x86.VZEROUPPER()); add(x86.RET()) })
+		for j := range order {
+			order[j] = len(progs) - 1 - j
+		}
+	case 2:
+		starter(func(add func(*ir.Instruction, error), coll *reg.Collection) {
+			a, b := coll.YMM(), coll.YMM()
+			add(x86.VPXOR(a, a, a))
+			add(x86.VPADDD(a, a, b))
+			add(x86.RET())
+		})
+		for j := range order {
+			order[j] = (j + len(progs)/2) % len(progs)
+		}
+	case 3:
+		starter(func(add func(*ir.Instruction, error), coll *reg.Collection) {
+			k1, k2 := coll.K(), coll.K()
+			add(x86.KXORQ(k1, k1, k1))
+			add(x86.KORQ(k1, k1, k2))
+			add(x86.RET())
+		})
+	}
+	hashes := make([]string, len(progs))
+	for _, j := range order {
+		hashes[j] = fmt.Sprintf("%x", sha256.Sum256([]byte(safeBuild(progs[j]))))
+	}
+	for _, h := range hashes {
+		fmt.Println(h)
 	}
 }
 
@@ -249,6 +338,7 @@ func c17(c *Ctx) {
 	self, _ := os.Executable()
 	for k := 0; k < procs; k++ {
 		cmd := exec.Command(self, "C17child", "-seed", fmt.Sprint(c.Seed), "-tier", c.Tier, "-out", filepath.Join(c.Tmp, fmt.Sprintf("child%d", k)))
+		cmd.Env = append(os.Environ(), fmt.Sprintf("VH_C17_VARIANT=%d", k))
 		out, err := cmd.Output()
 		if err != nil {
 			die(fmt.Errorf("child: %v", err))
